@@ -273,8 +273,8 @@ func argsFor(r *hx.Rng, name string) int {
 	return 0
 }
 
-func searchCases(seed uint64, n int) []tcase {
-	r := hx.NewRng(seed)
+func searchCases(seed uint64, round, n, total int) []tcase {
+	r := hx.NewRng(seed*1000003 + uint64(round))
 	var cs []tcase
 	names := make([]string, 0, len(targets))
 	for _, t := range targets {
@@ -284,6 +284,9 @@ func searchCases(seed uint64, n int) []tcase {
 	}
 	// 1. seeds unchanged, truncated at every byte (quick: every prefix of the seeds)
 	for _, name := range names {
+		if round != 0 {
+			break
+		}
 		for _, h := range seedsOf[name] {
 			s := hx.UnHex(h)
 			cs = append(cs, tcase{name, s, argsFor(r, name)})
@@ -330,6 +333,9 @@ func searchCases(seed uint64, n int) []tcase {
 	}
 	// 3. raw short inputs for everything: empty, one byte, a few random bytes
 	for _, name := range names {
+		if round != 0 {
+			break
+		}
 		for _, h := range []string{"-", "00", "ff", "0000", "ffff", "000000", "00000001", "ffffffffff"} {
 			cs = append(cs, tcase{name, hx.UnHex(h), argsFor(r, name)})
 		}
@@ -378,8 +384,8 @@ func genPipeline(r *hx.Rng, codec string) []byte {
 }
 
 // seiCorrCases: payloads and external parameters for the modelled sei.DecodePicTimingHevcSEI.
-func seiCorrCases(seed uint64, n int) []tcase {
-	r := hx.NewRng(seed)
+func seiCorrCases(seed uint64, round, n, total int) []tcase {
+	r := hx.NewRng(seed*1000003 + uint64(round))
 	const name = "sei.DecodePicTimingHevcSEI"
 	var cs []tcase
 	arg := func() int {
@@ -389,8 +395,12 @@ func seiCorrCases(seed uint64, n int) []tcase {
 		}
 		return flags | r.Pick(0, 1, 7, 23, 31)<<4 | r.Pick(0, 3, 7, 23, 31)<<9 | r.Pick(0, 2, 7, 31)<<14 | r.Pick(0, 1, 7, 31)<<19
 	}
-	for _, h := range []string{"-", "00", "ff", "0000000020", "071000001a00000180", "000000002000000000", "ffffffffffffffffffff",
-		"0000000000000000008000000000000000", "1fffffffffffffff", "00000300000300"} {
+	fixed := []string{"-", "00", "ff", "0000000020", "071000001a00000180", "000000002000000000", "ffffffffffffffffffff",
+		"0000000000000000008000000000000000", "1fffffffffffffff", "00000300000300"}
+	if round != 0 {
+		fixed = nil
+	}
+	for _, h := range fixed {
 		for k := 0; k < 6; k++ {
 			cs = append(cs, tcase{name, hx.UnHex(h), arg()})
 		}
